@@ -10,7 +10,7 @@
    extracted subgraph is checked end to end by the C19 oracle. *)
 From VF Require Import Base.Prelude Gen.Enums Model.Graph Gen.InstChecks Model.Insts
      Model.Perform Spec.WF Proofs.ListFacts Proofs.PerformStep Proofs.ModeProofs Proofs.LocalProofs
-     Proofs.AloneProofs.
+     Proofs.AloneProofs Proofs.InstsAlone.
 
 Definition ex_t0 (r : Z) : tensor :=
   {| t_root := r; t_sfx := []; t_shape := 0; t_ty := TY_FLOAT32; t_buf := 1; t_q := None |}.
@@ -92,6 +92,31 @@ Theorem C19_subgraph_transformed_as_if_it_stood_alone :
                same_subgraph_result k 0 m1 m2.
 Proof. exact transform_graph_alone. Qed.
 Print Assumptions C19_subgraph_transformed_as_if_it_stood_alone.
+
+(* one stage earlier: the INSTRUCTION GENERATOR is per subgraph too.  With
+   model-wide unique tensor names (the input contract; `NoDup (all_keys m)`),
+   the instructions generated from a plan entry named after a tensor of
+   subgraph k are the same in the whole model and in k alone, and they are
+   addressed to k ... *)
+Theorem C19_instructions_are_generated_per_subgraph :
+  forall m k g p,
+    NoDup (all_keys m) -> nth_opt (m_subgraphs m) k = Some g -> in_subgraph g (ttp_name p) ->
+    quant_params_to_insts (info_map (alone m k g)) p =
+      res_map (set_sg 0) (quant_params_to_insts (info_map m) p) /\
+    (forall ti, quant_params_to_insts (info_map m) p = Ok ti -> ti_sg ti = Z.of_nat k).
+Proof. exact insts_per_subgraph. Qed.
+Print Assumptions C19_instructions_are_generated_per_subgraph.
+
+(* ... so generator + performer on the whole model, and on subgraph k alone
+   given the plan entries named after k's tensors, produce the same subgraph *)
+Theorem C19_generated_and_transformed_as_if_alone :
+  forall m k g ps tis m1,
+    NoDup (all_keys m) -> nth_opt (m_subgraphs m) k = Some g -> codes_in_range (m_opcodes m) g ->
+    insts_of_params m ps = Ok tis -> transform_graph m tis = Ok m1 ->
+    exists tis2 m2, insts_of_params (alone m k g) (filter (named_in g) ps) = Ok tis2 /\
+                    transform_graph (alone m k g) tis2 = Ok m2 /\ same_subgraph_result k 0 m1 m2.
+Proof. exact generate_and_transform_alone. Qed.
+Print Assumptions C19_generated_and_transformed_as_if_alone.
 
 (* the step-level facts behind it, for ANY two states that agree on the subgraph *)
 Theorem C19_same_instruction_same_effect :
